@@ -294,6 +294,50 @@ def run(ctx):
         spec = J.make_spec(K, rng, "general", ["A128KW", a], "A128GCM", plaintext=b"never sent")
         refused(spec, "1pu-kw:second-recipient:%s" % a, "InvalidEncryptionAlgorithmError")
 
+    # ------------------------------------------------------------------ several recipients, the reader holds ONE key
+    # verify_all_recipients=False: every recipient's holder, using only its own key for all entries, must get the plaintext;
+    # the foreign entries fail with whatever error class their algorithm raises for a key that is not theirs
+    def single_key_mix(label, enc, entries, lenient=False):
+        """entries: [(alg, key)]; lenient: an entry may abort the whole decryption on HEAD (EC key on an OKP epk and
+        vice versa raises a plain ValueError from the JWK import, which the loop does not skip)"""
+        recips = [(J.recipient_header(rng, a), k) for a, k in entries]
+        pt = b"one key among many: " + label.encode()
+        obs, info = J.do_encrypt("general", {"enc": enc}, pt, recips)
+        if obs[0] != "ok":
+            ctx.violation({"kind": "encrypt-failed", "algs": label, "enc": enc}, "encrypt failed (%s): %s" % (label, obs[1]), {"label": label})
+            return
+        tok = J.token_of(obs)
+        for i, (a, k) in enumerate(entries):
+            keys = [k] * len(entries)
+            o2, (dlog, nd) = J.do_decrypt("json", tok, keys, verify_all=False)
+            ctx.note_case(("single-key", label, i))
+            bump("single-key-any-recipient")
+            if not nd and J.table_chars(dlog) < 40000:
+                cases.append(J.case_dec("json", tok, keys, None, False, o2, dlog)); meta.append(("single-key", "%s@%d" % (label, i)))
+            if o2[0] == "ok" and o2[1] != pt:
+                ctx.violation({"kind": "roundtrip-plaintext", "algs": label, "enc": enc, "ser": "general"},
+                              "other plaintext for the holder of recipient %d (%s)" % (i, label), {"label": label, "token": tok})
+            if o2[0] != "ok" and not lenient:
+                ctx.violation({"kind": "single-key-holder-rejected", "algs": label, "enc": enc, "error": o2[1]},
+                              "with verify_all_recipients=False the holder of recipient %d's key cannot open a token for recipients "
+                              "%s: %s" % (i, label, o2[1]),
+                              {"label": label, "token": tok, "key": J.key_jwk(k), "index": i})
+
+    o = K.oct
+    mixes = [
+        ("A128KW+A192KW+A256KW", "A128CBC-HS256", [("A128KW", o[128]), ("A192KW", o[192]), ("A256KW", o[256])], False),
+        ("A128GCMKW+A256GCMKW+A128KW", "A256GCM", [("A128GCMKW", o[128]), ("A256GCMKW", o[256]), ("A128KW", K.oct_alt[128])], False),
+        ("ES-P256+ES-P384+ES-P521", "A128GCM", [("ECDH-ES+A128KW", K.ec["P-256"]), ("ECDH-ES+A128KW", K.ec["P-384"]), ("ECDH-ES+A256KW", K.ec["P-521"])], False),
+        ("ES-X25519+ES-X448", "A128CBC-HS256", [("ECDH-ES+A128KW", K.okp["X25519"]), ("ECDH-ES+A192KW", K.okp["X448"])], False),
+        ("RSA+A128KW+ES-P256+PBES2", "A256CBC-HS512", [("RSA-OAEP", K.rsa), ("A128KW", o[128]), ("ECDH-ES+A256KW", K.ec["P-256"]),
+                                                       ("PBES2-HS256+A128KW", K.oct_alt[192])], False),
+        ("A256KW+A192GCMKW+RSA1_5", "XC20P", [("A256KW", o[256]), ("A192GCMKW", o[192]), ("RSA1_5", K.rsa)], False),
+        ("ES-P256+ES-X25519", "A128GCM", [("ECDH-ES+A128KW", K.ec["P-256"]), ("ECDH-ES+A128KW", K.okp["X25519"])], True),
+        ("ES-secp256k1+A128KW+ES-P256", "C20P", [("ECDH-ES+A128KW", K.ec["secp256k1"]), ("A128KW", o[128]), ("ECDH-ES+A128KW", K.ec["P-256"])], False),
+    ]
+    for label, enc, entries, lenient in mixes:
+        single_key_mix(label, enc, entries, lenient)
+
     # falsy-but-valid values of every optional input (aad b"", plaintext b"", {} headers, "" apu / apv / kid / p2s)
     J.falsy_checks(ctx, K, rng, cases, meta, bump)
 
